@@ -515,6 +515,13 @@ impl TransportService {
             "Dial peer requested",
         );
 
+        #[cfg(feature = "verif")]
+        if verif_dial_log::enabled() {
+            let result = self.transport_handle.dial(peer);
+            verif_dial_log::record(*peer, &result);
+            return result;
+        }
+
         self.transport_handle.dial(peer)
     }
 
@@ -632,6 +639,38 @@ impl TransportService {
     /// handle).
     pub fn unregister_protocol(&self) {
         self.transport_handle.unregister_protocol(self.protocol.clone());
+    }
+}
+
+/// Verification hook: per-thread log of the calls to [`TransportService::dial`] and their
+/// immediate results (switched on by the harness). Adds code only.
+#[cfg(feature = "verif")]
+pub mod verif_dial_log {
+    use crate::{error::ImmediateDialError, PeerId};
+    use std::cell::{Cell, RefCell};
+
+    thread_local! {
+        static ENABLED: Cell<bool> = const { Cell::new(false) };
+        static LOG: RefCell<Vec<(PeerId, Option<ImmediateDialError>)>> = const { RefCell::new(Vec::new()) };
+    }
+
+    /// Switch the log on or off for this thread.
+    pub fn enable(on: bool) {
+        ENABLED.with(|flag| flag.set(on));
+        LOG.with(|log| log.borrow_mut().clear());
+    }
+
+    pub(super) fn enabled() -> bool {
+        ENABLED.with(|flag| flag.get())
+    }
+
+    pub(super) fn record(peer: PeerId, result: &Result<(), ImmediateDialError>) {
+        LOG.with(|log| log.borrow_mut().push((peer, result.as_ref().err().cloned())));
+    }
+
+    /// The `dial` calls made on this thread since the last call: peer and `None` for `Ok(())`.
+    pub fn take() -> Vec<(PeerId, Option<ImmediateDialError>)> {
+        LOG.with(|log| std::mem::take(&mut *log.borrow_mut()))
     }
 }
 
